@@ -40,7 +40,7 @@ type (
 		Forall   bool
 		Vars     []SParam
 		Body     SExpr
-		Triggers []SExpr // optional explicit instantiation patterns: forall x T {f(x), g(x)} :: body
+		Triggers [][]SExpr // optional explicit instantiation patterns: forall x T {f(x), g(x)} {h(x)} :: body (alternatives of multi-patterns)
 	}
 	SIs struct {
 		X  SExpr
@@ -271,7 +271,7 @@ func (ps *sparser) expr(minPrec int) SExpr {
 func (ps *sparser) quant() SExpr {
 	t := ps.next()
 	var vars []SParam
-	var triggers []SExpr
+	var triggers [][]SExpr
 	for {
 		n := ps.next()
 		if n.k != "id" {
@@ -288,15 +288,17 @@ func (ps *sparser) quant() SExpr {
 		for _, nm := range names {
 			vars = append(vars, SParam{nm, ty})
 		}
-		if ps.isOp("{") {
+		for ps.isOp("{") {
 			ps.next()
+			var grp []SExpr
 			for !ps.isOp("}") {
-				triggers = append(triggers, ps.expr(2))
+				grp = append(grp, ps.expr(2))
 				if ps.isOp(",") {
 					ps.next()
 				}
 			}
 			ps.next()
+			triggers = append(triggers, grp)
 		}
 		if ps.isOp("::") {
 			ps.next()
